@@ -52,6 +52,7 @@ type swapEvt struct {
 	pre       map[string]sdkmath.Int // pool reserves (bank-derived) immediately before the swap
 	used      bool
 	bonus     sdkmath.Int // paid by the rebalance treasury to the recipient inside this swap
+	poolPaid  sdk.Coins   // everything that left the pool's own address while this swap was in flight (output, forwarded fees, anything else)
 	poolObj   ammtypes.Pool
 	exactOut  bool // belongs to an exact-out request: the implementation's rounding is on the input side
 }
@@ -202,6 +203,7 @@ func (m *MonSwaps) AfterBlock(s *Sim, eb *ExecBlock) {
 		coins sdk.Coins
 		snap  map[string]sdkmath.Int
 		bonus map[string]sdkmath.Int // recipient|denom -> amount paid by treasury since this entry was pushed
+		paid  sdk.Coins              // transfers out of the pool's own address since this entry was pushed
 	}
 	var stack []*pending
 	var swaps []*swapEvt
@@ -223,6 +225,12 @@ func (m *MonSwaps) AfterBlock(s *Sim, eb *ExecBlock) {
 				for _, c := range x.coins {
 					if cur, ok := pi.bal[c.Denom]; ok {
 						pi.bal[c.Denom] = cur.Sub(c.Amount)
+					}
+				}
+				for j := len(stack) - 1; j >= 0; j-- {
+					if stack[j].pool == pi {
+						stack[j].paid = stack[j].paid.Add(x.coins...)
+						break
 					}
 				}
 			}
@@ -255,6 +263,7 @@ func (m *MonSwaps) AfterBlock(s *Sim, eb *ExecBlock) {
 			if p.pool.pool.PoolId == pid && p.from == se.sender && p.coins.Equal(sdk.NewCoins(in)) {
 				se.pre = p.snap
 				se.bonus = zeroIfNil(p.bonus, se.recipient+"|"+out.Denom)
+				se.poolPaid = p.paid
 				stack = append(stack[:j], stack[j+1:]...)
 				break
 			}
@@ -363,6 +372,29 @@ func (m *MonSwaps) checkPrice(s *Sim, eb *ExecBlock, pool ammtypes.Pool, se *swa
 	lim := new(big.Rat).Add(vin, oneUnit)
 	if vout.Cmp(lim) > 0 {
 		s.Violate("C03", "oracle_out_value_exceeds_in", culprit, "%s: value out %s > value in %s at oracle prices in=%s out=%s", inst, vout.FloatString(6), vin.FloatString(6), pin, pout)
+	}
+	// the same from the pool's own books: everything that left the pool's address while the swap was
+	// in flight (the output, fees forwarded to the revenue address and the treasury, and anything
+	// else - a rebalancing bonus must come from the treasury, never from the pool) is worth no more
+	// than what came in
+	{
+		total := new(big.Rat)
+		allow := new(big.Rat)
+		priced := true
+		for _, c := range se.poolPaid {
+			p := s.N0.App.OracleKeeper.GetAssetPriceFromDenom(ctx, c.Denom)
+			if p.IsZero() {
+				priced = false
+				break
+			}
+			pr := new(big.Rat).SetFrac(p.BigInt(), big.NewInt(1))
+			total.Add(total, new(big.Rat).Mul(new(big.Rat).SetInt(bigOf(c.Amount)), pr))
+			allow.Add(allow, new(big.Rat).Mul(pr, big.NewRat(2, 1)))
+		}
+		if priced && total.Cmp(new(big.Rat).Add(vin, allow)) > 0 {
+			s.Violate("C03", "oracle_pool_paid_more_than_received", culprit, "%s: the pool's address paid out %s in total while the swap was in flight, worth %s > value in %s at oracle prices (event says out=%s; a bonus may only come from the rebalance treasury)", inst, se.poolPaid, total.FloatString(6), vin.FloatString(6), se.out)
+		}
+		s.Stats.Probe("swap_checked_oracle_pool_total_outflow")
 	}
 	if se.bonus.IsPositive() {
 		s.Stats.Probe("swap_rebalance_bonus_paid")
